@@ -133,6 +133,7 @@ func (e *Engine) Begin(ctx context.Context, lock bool) (*Transaction, error) {
 	// acquire lock
 	e.mutex.Lock()
 	defer e.mutex.Unlock()
+	vhook("begin.enter", e, nil)
 
 	// check if closed
 	if !e.tomb.Alive() {
